@@ -268,9 +268,32 @@ def check(case) -> Result:
         feats.append("branch")
     r.labels += feats + [f"stages:{len(case['stages'])}", "typed" if case["typed"] else "untyped"]
 
-    # (B) python runs the chain directly
     mod_py = srcgen.load(text, prefix="vfc01py")
+    mod = srcgen.load(text, prefix="vfc01fa")
     try:
+        # the query-building function is called twice in the same process; the captured module constants differ the second time
+        for rnd in range(2 if ("K1" in user_part or "K2" in user_part) else 1):
+            if rnd == 1:
+                r.labels.append("built-twice-with-different-captures")
+                for m in (mod_py, mod):
+                    m.K1, m.K2 = m.K1 + 10, m.K2 * 4
+            res = _one_round(case, r, mod_py, mod, RecDS, feats, user_part, rnd)
+            if res is not None:
+                return res
+        return r
+    finally:
+        srcgen.unload(mod_py)
+        srcgen.unload(mod)
+
+
+def _one_round(case, r, mod_py, mod, RecDS, feats, user_part, rnd):
+    from func_adl.ast.aggregate_shortcuts import aggregate_node_transformer
+    from func_adl.ast.func_adl_ast_utils import change_extension_functions_to_calls
+    from func_adl.ast.function_simplifier import simplify_chained_calls
+    from func_adl.ast.meta_data import extract_metadata
+
+    # (B) python runs the chain directly
+    if True:
         root = PySeq(typed_model.build(case["data"], lazy=False))
         root.ns = mod_py.__dict__
         try:
@@ -279,12 +302,9 @@ def check(case) -> Result:
         except Exception:
             r.ref_error = True
             return r
-    finally:
-        srcgen.unload(mod_py)
 
     # (A) the same text with a recording func_adl dataset
-    mod = srcgen.load(text, prefix="vfc01fa")
-    try:
+    if True:
         ds = RecDS(typed_model.Evt) if case["typed"] else RecDS()
         try:
             outs = mod.build(ds)
@@ -294,7 +314,7 @@ def check(case) -> Result:
             return r
         except Exception as e:
             return r.fail(f"building the query raised {type(e).__name__}: {e}\n{user_part}")
-        r.nontrivial = len(case["stages"]) >= 2 and bool(feats) and any(pyeval.mat_nonempty(w) for w in want.values())
+        r.nontrivial = r.nontrivial or (len(case["stages"]) >= 2 and bool(feats) and any(pyeval.mat_nonempty(w) for w in want.values()))
         for name, stream in outs.items():
             received = _run(stream.value_async())
             variants = [("as received", received)]
@@ -317,10 +337,8 @@ def check(case) -> Result:
                 except Exception as e:
                     return r.fail(f"stream {name} {vname}: evaluating the query raised {type(e).__name__}: {e}; query {_u(tree)[:500]}; python computes {str(want[name])[:200]}\n{user_part}")
                 if got != want[name]:
-                    return r.fail(f"stream {name} {vname}: query {_u(tree)[:500]} computes {str(got)[:200]}; python running the chain computes {str(want[name])[:200]}\n{user_part}")
-        return r
-    finally:
-        srcgen.unload(mod)
+                    return r.fail(f"stream {name} {vname}{' (second build)' if rnd else ''}: query {_u(tree)[:500]} computes {str(got)[:200]}; python running the chain computes {str(want[name])[:200]}\n{user_part}")
+        return None
 
 
 def _strip(tree):
